@@ -20,15 +20,17 @@ structure Passive (f : Task → Task) : Prop where
   base : ∀ t, base (f t) = base t
   cb : ∀ t, (f t).cbRuns = t.cbRuns
   done : ∀ t, t.phase = .done → f t = t
+  sent : ∀ t, (f t).sentVer = t.sentVer ∧ (f t).lastSent = t.lastSent
 
 theorem base_of_ctl {t t' : Task} (h : SameCtl t t') : base t' = base t := by
   simp [base, h.phase, h.obsNo]
 
-theorem Passive_id : Passive id := ⟨fun _ => rfl, fun _ => rfl, fun _ => rfl, fun _ _ => rfl⟩
+theorem Passive_id : Passive id :=
+  ⟨fun _ => rfl, fun _ => rfl, fun _ => rfl, fun _ _ => rfl, fun _ => ⟨rfl, rfl⟩⟩
 
 theorem Passive_ite {g : Task → Task} (hg : Passive g) (p : Task → Bool) :
     Passive (fun t => if p t then g t else t) := by
-  refine ⟨?_, ?_, ?_, ?_⟩ <;> intro t <;> split
+  refine ⟨?_, ?_, ?_, ?_, ?_⟩ <;> intro t <;> split
   · exact hg.id t
   · rfl
   · exact hg.base t
@@ -37,9 +39,11 @@ theorem Passive_ite {g : Task → Task} (hg : Passive g) (p : Task → Bool) :
   · rfl
   · exact hg.done t
   · intro _; rfl
+  · exact hg.sent t
+  · exact ⟨rfl, rfl⟩
 
 theorem cancelTask_passive : Passive cancelTask := by
-  refine ⟨fun t => (cancelTask_id t).1, ?_, ?_, ?_⟩
+  refine ⟨fun t => (cancelTask_id t).1, ?_, ?_, ?_, ?_⟩
   · intro t; unfold cancelTask; split
     · rfl
     · split
@@ -50,19 +54,30 @@ theorem cancelTask_passive : Passive cancelTask := by
     · rfl
     · split <;> rfl
   · intro t hd; unfold cancelTask; simp [hd]
+  · intro t; unfold cancelTask; split
+    · exact ⟨rfl, rfl⟩
+    · split <;> exact ⟨rfl, rfl⟩
 
 theorem trigTask_passive (v : Option Resp) (il : Bool) (ver : Nat) :
     Passive (fun t => trigTask t v il ver) :=
   ⟨fun t => (trigTask_id t v il ver).1, fun t => base_of_ctl (trigTask_ctl t v il ver),
-   fun t => (trigTask_ctl t v il ver).cbRuns, fun t hd => by simp [trigTask, hd]⟩
+   fun t => (trigTask_ctl t v il ver).cbRuns, fun t hd => by simp [trigTask, hd],
+   fun t => by unfold trigTask; split <;> exact ⟨rfl, rfl⟩⟩
 
 theorem deregTask_passive (ver : Nat) : Passive (fun t => deregTask t ver) :=
   ⟨fun t => (deregTask_id t ver).1, fun t => base_of_ctl (deregTask_ctl t ver),
-   fun t => (deregTask_ctl t ver).cbRuns, fun t hd => by simp [deregTask, hd]⟩
+   fun t => (deregTask_ctl t ver).cbRuns, fun t hd => by simp [deregTask, hd],
+   fun t => by
+    unfold deregTask; split
+    · exact ⟨rfl, rfl⟩
+    · split
+      · exact ⟨rfl, rfl⟩
+      · exact (trigTask_passive _ _ _).sent t⟩
 
 theorem releaseTask_passive (code : Nat) (exc : Bool) : Passive (fun t => releaseTask t code exc) :=
   ⟨fun t => (releaseTask_id t code exc).1, fun t => base_of_ctl (releaseTask_ctl t code exc),
-   fun t => (releaseTask_ctl t code exc).cbRuns, fun t hd => by simp [releaseTask, hd]⟩
+   fun t => (releaseTask_ctl t code exc).cbRuns, fun t hd => by simp [releaseTask, hd],
+   fun t => by unfold releaseTask; split <;> exact ⟨rfl, rfl⟩⟩
 
 /-- the next Observe number of pipe `sv` (0 while there is no such task) -/
 def baseOf (c : State) (sv : Nat) : Nat :=
@@ -76,6 +91,12 @@ def cbOf (c : State) (sv : Nat) : Nat :=
   | some t => t.cbRuns
   | none => 0
 
+/-- the ghost record of what pipe `sv` notified last: `(sentVer, lastSent)` -/
+def sentOf (c : State) (sv : Nat) : Nat × Bool :=
+  match findTask c sv with
+  | some t => (t.sentVer, t.lastSent)
+  | none => (0, false)
+
 def doneAt (c : State) (sv : Nat) : Prop := ∃ t, findTask c sv = some t ∧ t.phase = .done
 
 /-- what an event may do to pipe `sv` without its task taking a step: nothing is said, the
@@ -85,6 +106,7 @@ structure Quiescent (c c' : State) (sv : Nat) (os : List Out) : Prop where
   base : baseOf c' sv = baseOf c sv
   cb : cbOf c' sv = cbOf c sv
   done : doneAt c sv → doneAt c' sv
+  sent : sentOf c' sv = sentOf c sv
 
 /-- `Passive`, as far as pipe `sv` is concerned -/
 structure PassiveAt (sv : Nat) (f : Task → Task) : Prop where
@@ -92,9 +114,10 @@ structure PassiveAt (sv : Nat) (f : Task → Task) : Prop where
   base : ∀ t, t.srv = sv → base (f t) = base t
   cb : ∀ t, t.srv = sv → (f t).cbRuns = t.cbRuns
   done : ∀ t, t.srv = sv → t.phase = .done → f t = t
+  sent : ∀ t, t.srv = sv → (f t).sentVer = t.sentVer ∧ (f t).lastSent = t.lastSent
 
 theorem Passive.at {f : Task → Task} (h : Passive f) (sv : Nat) : PassiveAt sv f :=
-  ⟨h.id, fun t _ => h.base t, fun t _ => h.cb t, fun t _ => h.done t⟩
+  ⟨h.id, fun t _ => h.base t, fun t _ => h.cb t, fun t _ => h.done t, fun t _ => h.sent t⟩
 
 theorem findTask_srv {c : State} {sv : Nat} {t : Task} (h : findTask c sv = some t) : t.srv = sv := by
   unfold findTask at h; simpa using List.find?_some h
@@ -104,7 +127,7 @@ theorem Quiescent_map {c : State} {f : Task → Task} {sv : Nat} (hf : PassiveAt
     Quiescent c c' sv os := by
   have hfind : findTask c' sv = (findTask c sv).map f := by
     unfold findTask; rw [ht]; exact findTask_map c f hf.id sv
-  refine ⟨hos, ?_, ?_, ?_⟩
+  refine ⟨hos, ?_, ?_, ?_, ?_⟩
   · simp only [baseOf, hfind]
     cases h : findTask c sv with
     | none => rfl
@@ -115,10 +138,14 @@ theorem Quiescent_map {c : State} {f : Task → Task} {sv : Nat} (hf : PassiveAt
     | some t => simp [hf.cb t (findTask_srv h)]
   · rintro ⟨t, h1, h2⟩
     exact ⟨t, by rw [hfind, h1]; simp [hf.done t (findTask_srv h1) h2], h2⟩
+  · simp only [sentOf, hfind]
+    cases h : findTask c sv with
+    | none => rfl
+    | some t => simp [hf.sent t (findTask_srv h)]
 
 theorem find_delivered_fresh (os : List MsgLayer.Out) (sv : Nat) :
     ∀ t, (delivered os).find? (fun t => t.srv == sv) = some t →
-      base t = 0 ∧ t.cbRuns = 0 := by
+      base t = 0 ∧ t.cbRuns = 0 ∧ t.sentVer = 0 ∧ t.lastSent = false := by
   intro t h
   obtain ⟨sv', r, w, _, rfl⟩ := mem_delivered.mp (List.mem_of_find?_eq_some h)
   simp [base, newTask]
@@ -133,7 +160,7 @@ theorem Quiescent_net {c : State} (h : Inv c) (e : MsgLayer.Ev) (sv : Nat) :
     rw [List.find?_append]
     congr 1
     exact findTask_map c _ hp.id sv
-  refine ⟨net_silent sv _, ?_, ?_, ?_⟩
+  refine ⟨net_silent sv _, ?_, ?_, ?_, ?_⟩
   · simp only [baseOf, hfind]
     cases hf : findTask c sv with
     | some t => simp [hp.base]
@@ -149,9 +176,19 @@ theorem Quiescent_net {c : State} (h : Inv c) (e : MsgLayer.Ev) (sv : Nat) :
       simp only [Option.map_none, Option.none_or]
       cases hd : (delivered (MsgLayer.handle c.ml e).2).find? (fun t => t.srv == sv) with
       | none => rfl
-      | some t => exact (find_delivered_fresh _ sv t hd).2
+      | some t => exact (find_delivered_fresh _ sv t hd).2.1
   · rintro ⟨t, h1, h2⟩
     exact ⟨t, by rw [hfind, h1]; simp [hp.done t h2], h2⟩
+  · simp only [sentOf, hfind]
+    cases hf : findTask c sv with
+    | some t => simp [hp.sent]
+    | none =>
+      simp only [Option.map_none, Option.none_or]
+      cases hd : (delivered (MsgLayer.handle c.ml e).2).find? (fun t => t.srv == sv) with
+      | none => rfl
+      | some t =>
+        have := find_delivered_fresh _ sv t hd
+        simp [this.2.2.1, this.2.2.2]
 
 
 theorem nil_silent (sv : Nat) : ∀ o ∈ ([] : List Out), speaks sv o = false := by intro o ho; cases ho
@@ -188,7 +225,7 @@ theorem Quiescent_handle {c : State} (h : Inv c) (ev : Ev) (sv : Nat)
       refine Quiescent_map (f := fun x => if x.srv == (stepTask c.value t plan acc).1.srv then
           (stepTask c.value t plan acc).1 else x) ?_ _ ?_ hout
       · have hs' : (stepTask c.value t plan acc).1.srv = sv' := by rw [hid.1]; exact hts
-        refine ⟨?_, ?_, ?_, ?_⟩
+        refine ⟨?_, ?_, ?_, ?_, ?_⟩
         · intro x; split
           · rename_i he; exact (by simpa using he : x.srv = _).symm
           · rfl
@@ -199,6 +236,9 @@ theorem Quiescent_handle {c : State} (h : Inv c) (ev : Ev) (sv : Nat)
           have : (x.srv == sv') = false := by rw [hx]; simpa using fun e => hsv e.symm
           simp [this]
         · intro x hx _; rw [hs']
+          have : (x.srv == sv') = false := by rw [hx]; simpa using fun e => hsv e.symm
+          simp [this]
+        · intro x hx; rw [hs']
           have : (x.srv == sv') = false := by rw [hx]; simpa using fun e => hsv e.symm
           simp [this]
       · simp only [putTask, hfr.1]
